@@ -1,6 +1,329 @@
-/- Line-protocol driver for engine `reopen` — not built yet (stub). -/
+/-
+  Line-protocol driver for engine `reopen` (C09).
+
+  Case:   reopen <page_size> <cache> <pool> <min_keys> <siblings> | <op> ; <op> ; …       (creation-time configuration)
+  op:     create <name>(<col>:<type>[!][*],…)        CREATE TABLE; types big|int|text, `!` NOT NULL, `*` UNIQUE
+          droptable <name>                            DROP TABLE
+          vacuum                                      Database::vacuum
+          tid                                         an empty committed transaction; prints its id
+          burn <n>                                    n empty committed transactions
+          reopen drop|flush|leak <page_size> <cache> <pool> <min_keys> <siblings>
+                                                      close (drop(db) | flush()+drop | drop(db) with the sessions left open and
+                                                      never finished) and Database::open with this configuration
+          s<i> begin|commit|rollback|drop, s<i> <stmt>, db <stmt>, db batch <stmt> & …      as engine `hist`
+  stmt:   sel|ins|upd|del as engine `hist`; values: decimal | null | 'lowercase' | ^<unit><n> (the unit repeated n times)
+  DDL and VACUUM are well-formed only while no session is open.
+  Output: one token per op; `reopen{hdr=<page_size>,<min_keys>,<siblings> <t>=[<row_id>,<v>,…;…] … !<name>=notfound …}` for a
+          reopen (every table that should exist with its full contents, every dropped or unknown name), then ` | ` and the
+          same observation at the end of the case.  Texts longer than 40 bytes print as `~<len>:<fnv1a32>`.
+  Flags:  field names of `Reopen.Defects` and `Db.Defects`; pseudo-flag `ideal` = the machine that never restarts.
+-/
+import AxVerif.Model.Reopen
+import AxVerif.Model.Bytes
+namespace AxVerif.Reopen.Drv
+open AxVerif AxVerif.Db AxVerif.Reopen
+
+def isLower (c : Char) : Bool := 'a' ≤ c && c ≤ 'z'
+def isDigit (c : Char) : Bool := '0' ≤ c && c ≤ '9'
+
+def ident (s : String) : Bool :=
+  match s.toList with
+  | [] => false
+  | c :: cs => isLower c && cs.all (fun d => isLower d || isDigit d)
+
+def sessName (s : String) : Bool :=
+  match s.toList with
+  | 's' :: d :: ds => (d :: ds).all isDigit
+  | _ => false
+
+def natOfDigits : List Char → Nat → Nat
+  | [], acc => acc
+  | c :: cs, acc => natOfDigits cs (acc * 10 + (c.toNat - 48))
+
+/-- canonical decimal natural number (no sign, no leading zeros, at most 10 digits) not above `max` -/
+def parseNatC (ds : List Char) (max : Nat) : Option Nat :=
+  match ds with
+  | [] => none
+  | d :: rest =>
+    if (d :: rest).all isDigit && (d != '0' || rest.isEmpty) && (d :: rest).length ≤ 10 then
+      let n := natOfDigits (d :: rest) 0
+      if n ≤ max then some n else none
+    else none
+
+def parseInt (s : String) : Option Int :=
+  match s.toList with
+  | '-' :: ds => match parseNatC ds 1000000000 with
+    | some n => if n = 0 then none else some (-(Int.ofNat n))
+    | none => none
+  | ds => (parseNatC ds 1000000000).map Int.ofNat
+
+def repeatChars (u : List Char) : Nat → List Char
+  | 0 => []
+  | n + 1 => u ++ repeatChars u n
+
+def parseVal (s : String) : Option Val :=
+  if s = "null" then some .null
+  else match s.toList with
+    | '^' :: rest =>
+      let unit := rest.takeWhile isLower
+      let num := rest.dropWhile isLower
+      if unit.isEmpty then none
+      else match parseNatC num 100000 with
+        | some n => if n = 0 then none else some (.text (String.ofList (repeatChars unit n)))
+        | none => none
+    | '\'' :: rest =>
+      match rest.reverse with
+      | '\'' :: body => if body.all isLower then some (.text (String.ofList body.reverse)) else none
+      | _ => none
+    | _ => (parseInt s).map .int
+
+def allSome : List (Option α) → Option (List α)
+  | [] => some []
+  | none :: _ => none
+  | some x :: xs => (allSome xs).map (x :: ·)
+
+def stripFlags : List Char → Bool → Bool → (List Char × Bool × Bool)
+  | '!' :: cs, _, u => stripFlags cs true u
+  | '*' :: cs, n, _ => stripFlags cs n true
+  | cs, n, u => (cs, n, u)
+
+def parseCol (s : String) : Option Col :=
+  match s.splitOn ":" with
+  | [cn, ty] =>
+    let (tyr, nn, un) := stripFlags ty.toList.reverse false false
+    let tys := String.ofList tyr.reverse
+    if !ident cn then none
+    else if tys = "big" then some ⟨cn, .big, nn, un⟩
+    else if tys = "int" then some ⟨cn, .int, nn, un⟩
+    else if tys = "text" then some ⟨cn, .text, nn, un⟩
+    else none
+  | _ => none
+
+def parseTable (s : String) : Option TableSchema :=
+  match s.splitOn "(" with
+  | [name, rest] =>
+    match rest.toList.reverse with
+    | ')' :: body =>
+      if !ident name then none
+      else match allSome ((String.ofList body.reverse).splitOn "," |>.map parseCol) with
+        | some cols => if cols.isEmpty then none else some ⟨name, cols, []⟩
+        | none => none
+    | _ => none
+  | _ => none
+
+def parseCmp : String → Option CmpOp
+  | "eq" => some .eq | "ne" => some .ne | "lt" => some .lt | "le" => some .le | "gt" => some .gt | "ge" => some .ge
+  | _ => none
+
+def parsePred : List String → Option (Option Pred)
+  | [] => some none
+  | ["where", col, op, v] =>
+    match parseCmp op, parseVal v with
+    | some o, some x => if ident col then some (some ⟨col, o, x⟩) else none
+    | _, _ => none
+  | _ => none
+
+def splitWords (sep : String) : List String → List String → List (List String) → List (List String)
+  | [], cur, acc => (cur.reverse :: acc).reverse
+  | w :: ws, cur, acc => if w = sep then splitWords sep ws [] (cur.reverse :: acc) else splitWords sep ws (w :: cur) acc
+
+def parseStmt : List String → Option Stmt
+  | "sel" :: t :: rest => if ident t then (parsePred rest).map (Stmt.sel t) else none
+  | "del" :: t :: rest => if ident t then (parsePred rest).map (Stmt.del t) else none
+  | "upd" :: t :: col :: how :: v :: rest =>
+    if ident t && ident col && (how = "set" || how = "add") then
+      match parseVal v, parsePred rest with
+      | some x, some p => some (.upd t col (how = "add") x p)
+      | _, _ => none
+    else none
+  | "ins" :: t :: rest =>
+    if ident t && !rest.isEmpty then
+      let groups := splitWords "," rest [] []
+      if groups.any (·.isEmpty) then none
+      else match allSome (groups.map (fun g => allSome (g.map parseVal))) with
+        | some rows => some (.ins t rows)
+        | none => none
+    else none
+  | _ => none
+
+def pageSizeOk (n : Nat) : Bool := n = 4096 || n = 8192 || n = 16384 || n = 32768 || n = 65536
+
+def parseCfg (ps cache pool mk sib : String) : Option Config :=
+  match parseNatC ps.toList 65536, parseNatC cache.toList 60000, parseNatC pool.toList 16, parseNatC mk.toList 8,
+        parseNatC sib.toList 4 with
+  | some a, some b, some c, some d, some e =>
+    if pageSizeOk a && b ≥ 16 && c ≥ 1 && d ≥ 3 && e ≥ 1 then some ⟨a, b, c, d, e⟩ else none
+  | _, _, _, _, _ => none
+
+def parseOp (ws : List String) : Option WOp :=
+  match ws with
+  | "db" :: "batch" :: rest =>
+    (allSome ((splitWords "&" rest [] []).map parseStmt)).map (fun s => WOp.db (Op.batch s))
+  | "db" :: rest => (parseStmt rest).map (fun s => WOp.db (Op.auto s))
+  | ["create", spec] => (parseTable spec).map WOp.create
+  | ["droptable", t] => if ident t then some (.dropTable t) else none
+  | ["vacuum"] => some .vacuum
+  | ["tid"] => some .tid
+  | ["burn", n] => match parseNatC n.toList 20000 with
+    | some k => if k = 0 then none else some (.burn k)
+    | none => none
+  | ["reopen", how, ps, cache, pool, mk, sib] =>
+    if how = "drop" || how = "flush" || how = "leak" then (parseCfg ps cache pool mk sib).map (WOp.reopen (how = "leak"))
+    else none
+  | [s, "begin"] => if sessName s then some (.db (.begin s)) else none
+  | [s, "commit"] => if sessName s then some (.db (.commit s)) else none
+  | [s, "rollback"] => if sessName s then some (.db (.rollback s)) else none
+  | [s, "drop"] => if sessName s then some (.db (.drop s)) else none
+  | s :: rest => if sessName s then (parseStmt rest).map (fun st => WOp.db (Op.exec s st)) else none
+  | [] => none
+
+/-- DDL and VACUUM only while no session is open (`reopen` ends every session) -/
+def wellFormed : List WOp → List String → Bool
+  | [], _ => true
+  | op :: ops, sess =>
+    match op with
+    | .db (.begin s) => wellFormed ops (if sess.contains s then sess else s :: sess)
+    | .db (.commit s) => wellFormed ops (sess.filter (· != s))
+    | .db (.rollback s) => wellFormed ops (sess.filter (· != s))
+    | .db (.drop s) => wellFormed ops (sess.filter (· != s))
+    | .create _ => sess.isEmpty && wellFormed ops sess
+    | .dropTable _ => sess.isEmpty && wellFormed ops sess
+    | .vacuum => sess.isEmpty && wellFormed ops sess
+    | .reopen _ _ => wellFormed ops []
+    | _ => wellFormed ops sess
+
+def parseCase (line : String) : Option (Config × List WOp) :=
+  let line := line.trimAscii.toString
+  if !line.startsWith "reopen " then none
+  else match (line.drop 7).toString.splitOn "|" with
+    | [head, ops] =>
+      match words head with
+      | [ps, cache, pool, mk, sib] =>
+        match parseCfg ps cache pool mk sib with
+        | none => none
+        | some cfg =>
+          let ops := ops.trimAscii.toString
+          if ops.isEmpty then some (cfg, [])
+          else match allSome ((ops.splitOn " ; ").map (fun o => parseOp (words o))) with
+            | some os => if wellFormed os [] then some (cfg, os) else none
+            | none => none
+      | _ => none
+    | _ => none
+
+/-! ### rendering -/
+
+def fnv32 (cs : List Char) : Nat :=
+  cs.foldl (fun h c => ((h ^^^ c.toNat) * 16777619) % 4294967296) 2166136261
+
+def showVal : Val → String
+  | .int n => toString n
+  | .null => "null"
+  | .text s => if s.length > 40 then s!"~{s.length}:{fnv32 s.toList}" else "'" ++ s ++ "'"
+
+def insertSorted (x : String) : List String → List String
+  | [] => [x]
+  | y :: ys => if x ≤ y then x :: y :: ys else y :: insertSorted x ys
+
+def sortStrings (xs : List String) : List String := xs.foldr insertSorted []
+
+def showErr : Err → String
+  | .conflict => "conflict" | .constraint => "constraint" | .notfound => "notfound" | .type => "type" | .other => "other"
+
+def showRows (rs : List (List Val)) : String :=
+  "[" ++ joinWith ";" (sortStrings (rs.map (fun r => joinWith "," (r.map showVal)))) ++ "]"
+
+def showS : SOut → String
+  | .okN n => s!"ok{n}"
+  | .rows rs => showRows rs
+  | .err e => showErr e
+
+def showDb : Out → String
+  | .ok => "ok"
+  | .stmt o => showS o
+  | .refused e => showErr e
+  | .noSession => "nosession"
+  | .batchErr e => "batch-" ++ showErr e
+  | .batch outs => "batch(" ++ joinWith " " (outs.map showS) ++ ")"
+  | .none => "-"
+
+def showObs (rows : List (Nat × List Val)) : String :=
+  "[" ++ joinWith ";" (sortStrings (rows.map (fun r => joinWith "," (toString r.1 :: r.2.map showVal)))) ++ "]"
+
+def showW : WOut → String
+  | .db o => showDb o
+  | .created oid => s!"ddl@{oid}"
+  | .dropped => "ddl"
+  | .err .exists => "exists"
+  | .err .notfound => "notfound"
+  | .ok => "ok"
+  | .tid n => s!"tid{n}"
+  | .obs rows => showObs rows
+  | .reopened e => s!"hdr={e.pageSize},{e.minKeys},{e.siblings}"
+  | .panic => "panic"
+
+structure Flags where
+  D : Db.Defects
+  R : Defects
+  ideal : Bool
+
+def parseFlags (flags : List String) : Flags :=
+  { D := { updateKeepsInserterXmin := flags.contains "updateKeepsInserterXmin",
+           writeSetNeverRecorded := flags.contains "writeSetNeverRecorded",
+           deleteMarkSingleSlot := flags.contains "deleteMarkSingleSlot",
+           stmtNotAtomicInSession := flags.contains "stmtNotAtomicInSession",
+           indexNotMaintainedOnKeyUpdate := flags.contains "indexNotMaintainedOnKeyUpdate",
+           indexOneEntryPerKey := flags.contains "indexOneEntryPerKey",
+           uniqueNotRecheckedAtCommit := flags.contains "uniqueNotRecheckedAtCommit" },
+    R := { abortedBitmap8192 := flags.contains "abortedBitmap8192",
+           openTxnAtCloseSurvives := flags.contains "openTxnAtCloseSurvives",
+           versionCounterU8 := flags.contains "versionCounterU8" },
+    ideal := flags.contains "ideal" }
+
+def defectNames : List String :=
+  ["abortedBitmap8192", "openTxnAtCloseSurvives", "versionCounterU8", "updateKeepsInserterXmin", "writeSetNeverRecorded",
+   "deleteMarkSingleSlot", "stmtNotAtomicInSession", "indexNotMaintainedOnKeyUpdate", "indexOneEntryPerKey",
+   "uniqueNotRecheckedAtCommit"]
+
+/-- the observation the engine makes after every open and at the end: every table that should exist, every name that
+    should not; `live` / `dead` are kept as the engine keeps them (from the outcomes of the DDL operations) -/
+def observe (F : Flags) (w : WState) (live dead : List String) : WState × String :=
+  let (w1, parts) := (live ++ dead).foldl (fun (acc : WState × List String) t =>
+    let (w', o) := stepW F.D F.R F.ideal acc.1 (.obs t)
+    (w', ((if live.contains t then t else "!" ++ t) ++ "=" ++ showW o) :: acc.2)) (w, [])
+  (w1, joinWith " " parts.reverse)
+
+def runOps (F : Flags) : List WOp → WState → List String → List String → List String → WState × List String × List String × List String
+  | [], w, live, dead, acc => (w, live, dead, acc.reverse)
+  | op :: ops, w, live, dead, acc =>
+    let (w1, o) := stepW F.D F.R F.ideal w op
+    match op, o with
+    | .create ts, .created _ =>
+      runOps F ops w1 (live.filter (· != ts.name) ++ [ts.name]) (dead.filter (· != ts.name)) (showW o :: acc)
+    | .dropTable t, .dropped =>
+      runOps F ops w1 (live.filter (· != t)) (if dead.contains t then dead else dead ++ [t]) (showW o :: acc)
+    | .reopen _ _, _ =>
+      let (w2, s) := observe F w1 live dead
+      runOps F ops w2 live dead (("reopen{" ++ showW o ++ " " ++ s ++ "}") :: acc)
+    | _, _ => runOps F ops w1 live dead (showW o :: acc)
+
+def runWith (F : Flags) (cfg : Config) (ops : List WOp) : String :=
+  let (w, live, dead, outs) := runOps F ops (WState.init cfg) [] ["zzneverzz"] []
+  let (_, fin) := observe F w live dead
+  s!"{joinWith " " outs} | {fin}"
+
+def runLine (flags : List String) (line : String) : String :=
+  match parseCase line with
+  | none => "bad-op"
+  | some (cfg, ops) =>
+    let go (fl : List String) : String := runWith (parseFlags fl) cfg ops
+    let out := go flags
+    let fired := (flags.filter defectNames.contains).filter (fun f => go (flags.filter (· != f)) != out)
+    if fired.isEmpty then out else out ++ " ## fired=" ++ joinWith "," fired
+
+end AxVerif.Reopen.Drv
+
 namespace AxVerif.Drivers
 
-def reopen (_flags : List String) (_line : String) : String := "unimplemented"
+def reopen (flags : List String) (line : String) : String := AxVerif.Reopen.Drv.runLine flags line
 
 end AxVerif.Drivers
